@@ -332,9 +332,93 @@ def _z3api(o, timeout_ms):
 
 
 Z3_FAST_MS = int(os.environ.get('PYVC_Z3_FAST_MS', '2500'))
+REFUTE_MS = int(os.environ.get('PYVC_REFUTE_MS', '4000'))
+_SMALL_STRINGS = ['a', 'b', '-c']
+
+
+def free_consts(terms):
+    seen, out, stack = set(), {}, list(terms)
+    while stack:
+        t = stack.pop()
+        if t.get_id() in seen:
+            continue
+        seen.add(t.get_id())
+        if z3.is_quantifier(t):
+            stack.append(t.body())
+            continue
+        if z3.is_const(t) and t.decl().kind() == z3.Z3_OP_UNINTERPRETED:
+            out[t.decl().name()] = t
+        stack.extend(t.children())
+    return list(out.values())
+
+
+def refute_bounded(o: Obligation, max_len=2):
+    """guard against an unsound `unsat` (observed with z3's sequence theory + recursive functions): search for a
+    counter-model of the SAME verification condition over small domains (sequences of length <= max_len, strings from a
+    3-element pool, small integers).  A model is accepted only after it has been validated by evaluation."""
+    s = z3.Solver()
+    s.set('timeout', REFUTE_MS)
+    fs = list(o.pc) + [z3.Not(o.goal)]
+    for f in fs:
+        s.add(f)
+    pool = [z3.StringVal(x) for x in _SMALL_STRINGS]
+    for c in free_consts(fs):
+        srt = c.sort()
+        if srt == z3.StringSort():
+            s.add(z3.Or(*[c == p for p in pool]))
+        elif isinstance(srt, z3.SeqSortRef):
+            s.add(z3.Length(c) <= max_len)
+            if srt.basis() == z3.StringSort():
+                for k in range(max_len):
+                    s.add(z3.Implies(z3.Length(c) > k, z3.Or(*[c[k] == p for p in pool])))
+        elif srt == z3.IntSort():
+            s.add(c >= -1, c <= max_len + 1)
+    r = s.check()
+    if r != z3.sat:
+        return None
+    m = s.model()
+    for f in fs:
+        if z3.is_quantifier(f) or _has_quant(f):
+            continue
+        v = m.eval(f, model_completion=True)
+        if not z3.is_true(v):
+            return None          # the model does not validate: ignore it
+    return m
+
+
+def _has_quant(t):
+    stack = [t]
+    seen = set()
+    while stack:
+        x = stack.pop()
+        if x.get_id() in seen:
+            continue
+        seen.add(x.get_id())
+        if z3.is_quantifier(x):
+            return True
+        stack.extend(x.children())
+    return False
 
 
 def discharge(o: Obligation, second=False, want_model=True):
+    rec = _discharge(o, second, want_model)
+    if rec['status'] == 'unsat':
+        t1 = time.time()
+        try:
+            m = refute_bounded(o)
+        except z3.Z3Exception:
+            m = None
+        rec['refute_s'] = round(time.time() - t1, 4)
+        rec['time_s'] = round(rec['time_s'] + rec['refute_s'], 4)
+        if m is not None:
+            rec['unsound_unsat'] = rec['backend']
+            rec['status'] = 'sat'
+            rec['model'] = m
+            rec['backend'] = 'z3-' + z3.get_version_string() + ' (bounded refutation of the same VC; validated model)'
+    return rec
+
+
+def _discharge(o: Obligation, second=False, want_model=True):
     """portfolio: z3 5.1 API (short) -> z3 4.8.12 CLI -> cvc5 CLI -> z3 5.1 API (long).
     -> dict(status=unsat|sat|unknown, backend, time_s, model)"""
     t0 = time.time()
